@@ -25,6 +25,7 @@ type c08Msg struct {
 	Compressed bool  `json:"compressed"`
 	Frags      int   `json:"fragments"`
 	BFinal     bool  `json:"bfinal,omitempty"` // compressed stream ends with a BFINAL=1 block (RFC 7692 7.2.3.4)
+	Unterm     bool  `json:"unterminated,omitempty"` // the DEFLATE stream stops right behind the data of a non-final stored block (no empty block, no final block)
 	// LateLimit: the limit is set while the reader is already parked waiting for this message
 	LateLimit bool `json:"limit_set_while_reader_waits,omitempty"`
 }
@@ -125,6 +126,7 @@ func c08Gen(tier string, seed int64) []fw.Case {
 						}
 						last := c08Msg{Limit: ml, Size: over, Compressed: p.Deflate && rng.Bool(), Frags: 1 + rng.Intn(4)}
 						last.BFinal = last.Compressed && rng.Intn(3) == 0
+						last.Unterm = last.Compressed && !last.BFinal && rng.Intn(3) == 0
 						last.LateLimit = rng.Intn(4) == 0 && len(d.Msgs) > 0
 						d.Msgs = append(d.Msgs, last)
 						add(d, fmt.Sprintf("limit/%s/%s/L=%d/size=%d/%s", role, paramsKey(p), lim, over, d.Reader))
@@ -343,6 +345,13 @@ func c08Limit(r *fw.R, d c08Desc) {
 				end = wire.EndBFinal
 			}
 			wp = def.Message(payload, 6, end)
+			if m.Unterm {
+				// stored blocks, and not even the header byte of the empty block that a sync flush appends
+				wp = def.Message(payload, 0, wire.EndSync)
+				if n := len(wp); n > 0 && wp[n-1] == 0 {
+					wp = wp[:n-1]
+				}
+			}
 		}
 		frs := fragments(rng, wire.OpBinary, m.Compressed, wp, m.Frags)
 		go func() {
@@ -391,6 +400,14 @@ func c08Limit(r *fw.R, d c08Desc) {
 				}
 			}
 		}
+		if !over && m.Unterm {
+			// a stream that no conforming sender produces: what a receiver makes of it is not specified
+			r.Count("unterminated_streams_within_the_limit_not_judged", 1)
+			if rerr != nil {
+				return
+			}
+			continue
+		}
 		if !over {
 			if rerr != nil {
 				r.Violate("C08/message-within-limit-rejected/"+rel, fmt.Sprintf("%s: read failed: %v", what, rerr), "")
@@ -405,8 +422,11 @@ func c08Limit(r *fw.R, d c08Desc) {
 		}
 		// over the limit
 		if rerr == nil {
-			r.Violate("C08/message-over-limit-delivered/"+rel+bfKey(m.BFinal), fmt.Sprintf("%s bfinal=%v: the message was reported complete with %d bytes", what, m.BFinal, len(got)), "")
+			r.Violate("C08/message-over-limit-delivered/"+rel+bfKey(m.BFinal)+untermKey(m.Unterm), fmt.Sprintf("%s bfinal=%v unterminated=%v: the message was reported complete with %d bytes", what, m.BFinal, m.Unterm, len(got)), "")
 			return
+		}
+		if m.Unterm {
+			r.Count("unterminated_streams_over_the_limit_rejected", 1)
 		}
 		if int64(len(got)) > effLimit+1 {
 			r.Violate("C08/too-many-bytes-handed-out/"+rel, fmt.Sprintf("%s: %d bytes were handed to the caller before the error, limit+1 = %d", what, len(got), effLimit+1), "")
@@ -417,7 +437,10 @@ func c08Limit(r *fw.R, d c08Desc) {
 		r.Count("messages_over_limit_rejected", 1)
 		ok := peer.Wait(10*time.Second, func() bool { return peer.Conf.CloseSeen })
 		peer.Locked(func() {
-			if !ok || peer.Conf.CloseCode != 1009 {
+			if m.Unterm && ok && peer.Conf.CloseCode != 1009 {
+				// (an unterminated stream may also be refused as malformed)
+				r.Count("unterminated_streams_refused_with_another_code", 1)
+			} else if !ok || peer.Conf.CloseCode != 1009 {
 				r.Violate("C08/no-close-1009/"+rel, fmt.Sprintf("%s: read failed with %v but the peer saw close frame=%v code=%d (want 1009)", what, rerr, peer.Conf.CloseSeen, peer.Conf.CloseCode), "")
 			} else {
 				r.Count("close_1009_seen", 1)
@@ -631,6 +654,13 @@ var _ = websocket.MessageText
 func bfKey(b bool) string {
 	if b {
 		return "/bfinal"
+	}
+	return ""
+}
+
+func untermKey(b bool) string {
+	if b {
+		return "/unterminated-stream"
 	}
 	return ""
 }
